@@ -78,7 +78,24 @@ func (x *fx) call(ci ssa.CallInstruction) []Term {
 				for i := 0; i < sig.Params().Len(); i++ {
 					ptypes = append(ptypes, sig.Params().At(i).Type())
 				}
-				return x.contractCall(fc, key, fc.Params, ptypes, x.valsOf(com.Args), sig.Results(), nil, ci)
+				names := fc.Params
+				args := x.valsOf(com.Args)
+				if target := e.P.Funcs[key]; target != nil && fc.Kind == "func" {
+					// a sibling closure called through a captured variable: its parameters by
+					// position, its captured variables by name (they are the caller's)
+					names = nil
+					for _, p := range target.Params {
+						names = append(names, p.Name())
+					}
+					for _, fv := range target.FreeVars {
+						if tv, ok := x.params[fv.Name()]; ok {
+							names = append(names, fv.Name())
+							ptypes = append(ptypes, fv.Type())
+							args = append(args, tv.T)
+						}
+					}
+				}
+				return x.contractCall(fc, key, names, ptypes, args, sig.Results(), nil, ci)
 			}
 			e.note("calls-as contract not found: " + key)
 		}
